@@ -33,9 +33,11 @@ Fixpoint rstrip0 (l : bytes) : bytes :=
               end
   end.
 
-(* pad_command (framing.py:234-238): None = ValueError *)
+(* pad_command (framing.py:234-241): None = ValueError (too long, or ending with a NUL byte, which
+   the zero padding could not represent) *)
+Definition ends_nul (c : bytes) : bool := match rev c with b :: _ => N.eqb b 0 | [] => false end.
 Definition pad_command (c : bytes) : option bytes :=
-  if length c <=? 12 then Some (c ++ repeat 0%N (12 - length c)) else None.
+  if length c <=? 12 then (if ends_nul c then None else Some (c ++ repeat 0%N (12 - length c))) else None.
 
 Section Framer.
 Variable cks : bytes -> bytes.
